@@ -351,7 +351,7 @@ def cases(tier, seed):
     for lo in range(0, len(pairs), chunk):
         yield {"kind": "pairs", "pairs": [[names[i], names[j], x] for i, j, x in pairs[lo:lo + chunk]], "mesh": gen.random_mesh(rng, 30),
                "mesh_b": gen.random_mesh(rng, 30), "source": SOURCES[(lo // chunk) % 4], "source_b": SOURCES[(lo // chunk + 1) % 4], "sseed": int(rng.integers(0, 10**6))}
-    nh = 100 if tier == "quick" else 2500
+    nh = 100 if tier == "quick" else 8000
     for i in range(nh):
         L = int(rng.integers(3, 26))
         ng = int(rng.integers(1, 4))
